@@ -283,10 +283,41 @@ func init() {
 	R("FieldByName", func(e *Exec, r RV, a []Value) Value {
 		e.mustKind(r, "FieldByName", reflect.Struct)
 		name := a[0].(Str)
-		if !name.Concrete() {
-			e.cut("unsupported-symbolic:FieldByName")
+		if nv, isNative := r.v.(Native); isNative {
+			// native-opaque struct (time.Time): decide with the real reflect package
+			if !name.Concrete() {
+				e.cut("unsupported-symbolic:FieldByName on native struct")
+			}
+			if reflect.ValueOf(nv.v).FieldByName(name.s).IsValid() {
+				e.cut("unsupported:field of native-opaque struct")
+			}
+			return RV{}
 		}
 		st := r.t.Underlying().(*types.Struct)
+		if !name.Concrete() {
+			// symbolic field name: fork over the (promoted and direct) field names of the same length
+			found := ""
+			for i := 0; i < st.NumFields() && found == ""; i++ {
+				fn := st.Field(i).Name()
+				if len(fn) == name.Len() && e.decide(strEq(name, Str{s: fn})) {
+					found = fn
+				}
+				if st.Field(i).Embedded() {
+					if es, ok := st.Field(i).Type().Underlying().(*types.Struct); ok {
+						for j := 0; j < es.NumFields() && found == ""; j++ {
+							en := es.Field(j).Name()
+							if len(en) == name.Len() && e.decide(strEq(name, Str{s: en})) {
+								found = en
+							}
+						}
+					}
+				}
+			}
+			if found == "" {
+				return RV{}
+			}
+			name = Str{s: found}
+		}
 		sv := r.v.(Struct)
 		for i := 0; i < st.NumFields(); i++ {
 			f := st.Field(i)
@@ -445,6 +476,20 @@ func (e *Exec) rtypeMethod(rt Rtype, name string, args []Value) Value {
 		return Bool(types.AssignableTo(t, args[0].(Iface).v.(Rtype).t))
 	case "Comparable":
 		return Bool(types.Comparable(t))
+	case "MethodByName":
+		name := args[0].(Str)
+		if !name.Concrete() {
+			e.cut("unsupported-symbolic:Type.MethodByName")
+		}
+		found := false
+		ms := e.prog.MethodSets.MethodSet(t)
+		for i := 0; i < ms.Len(); i++ {
+			if ms.At(i).Obj().Name() == name.s && ms.At(i).Obj().Exported() {
+				found = true
+			}
+		}
+		mt := e.prog.ImportedPackage("reflect").Type("Method").Type()
+		return Tuple{zero(mt), Bool(found)}
 	}
 	e.cut("unsupported-rtype-method:" + name)
 	return nil
